@@ -167,10 +167,10 @@ PROPS["C01"] = {
 
 # ---------------------------------------------------------------- C02
 PROPS["C02"] = {
-    "level": "model_checking", "engine": "kani",
+    "level": "model_checking", "engine": "kani+mir-smt", "mir": True,
     "technique": "bounded model checking (Kani/CBMC): the real decoders on arbitrary bytes vs. reference decoders written "
                  "from the format description (differential)",
-    "claim": "For arbitrary input bytes the cell decoder, the reference decoder, the column bit-field decoder (all 2^32 "
+    "claim": "Engine M: PropertySet::read (loops unrolled to <= 2 directory entries / values, reader calls arbitrary): every value stored in the returned set was decoded with exactly the code page the set reports, wherever the code-page property is laid out or listed. Kani: For arbitrary input bytes the cell decoder, the reference decoder, the column bit-field decoder (all 2^32 "
              "bit-fields) and the pool header/data reader return exactly what an independent description of the format "
              "says, and refuse what it refuses. Decoder kernels only: Package::open, read_rows, property sets with "
              "strings and code pages are outside.",
